@@ -264,3 +264,79 @@ def first_seen(ctx, fn, rule='T23'):
                                top, loc='%s:%d' % (fn.module.relpath, n.lineno))
     if found == 0:
         ctx.ob(rule, fn.fq, 'no first-seen idiom present (nothing to check)', True, loc=fn.loc, nontrivial=False)
+
+
+# ---------------------------------------------------------------------------
+# T27 PAIR-VIEW: code whose result depends on the order of *all* pairs reads the pair view
+KEY_VIEWS = {'keys', 'iterkeys', 'items', 'iteritems', 'values', 'itervalues'}
+ENUMERATORS = {'iter', 'reversed', 'list', 'tuple', 'sorted', 'set', 'frozenset', 'dict', 'enumerate', 'len_hint'}
+
+
+def _is_true(e):
+    return isinstance(e, ast.Constant) and e.value is True
+
+
+def pair_view(ctx, fn, region, subjects, what, rule='T27'):
+    """Inside `region` (a list of statements of fn) every enumeration of a subject's content goes through the all-pairs
+    view (X.items/keys/values(multi=True), the ring `X.root`, or a private helper of X) and never through the per-key
+    view (iteration over X, X.keys()/items()/values() without multi=True, dict.*(X, ...), reversed(X), ...)."""
+    nodes = [n for st in region for n in ast.walk(st)]
+    for S in subjects:
+        bad = []
+        good = []
+        for n in nodes:
+            if isinstance(n, (ast.For, ast.comprehension)) and isinstance(n.iter, ast.Name) and n.iter.id == S:
+                bad.append((n.iter, 'iteration over `%s` (one step per key)' % S))
+            if isinstance(n, ast.Call):
+                f = n.func
+                if isinstance(f, ast.Name) and f.id in ENUMERATORS and n.args and isinstance(n.args[0], ast.Name) and n.args[0].id == S:
+                    bad.append((n, '%s(%s) enumerates keys, not pairs' % (f.id, S)))
+                if isinstance(f, ast.Attribute) and isinstance(f.value, ast.Name) and f.value.id == S:
+                    if f.attr in KEY_VIEWS:
+                        multi = any(k.arg == 'multi' and _is_true(k.value) for k in n.keywords) or \
+                            (n.args and _is_true(n.args[0]))
+                        (good if multi else bad).append((n, '%s.%s() without multi=True is the per-key view' % (S, f.attr)))
+                    elif f.attr.startswith('_') and not f.attr.startswith('__'):
+                        good.append((n, 'private helper'))
+                if isinstance(f, ast.Attribute) and isinstance(f.value, ast.Name) and f.value.id == 'dict' and n.args and \
+                        isinstance(n.args[0], ast.Name) and n.args[0].id == S and f.attr in (
+                            KEY_VIEWS | {'__eq__', '__ne__', '__iter__', '__reversed__', 'copy'}):
+                    bad.append((n, 'dict.%s(%s, ...) sees one entry per key' % (f.attr, S)))
+                if isinstance(f, ast.Attribute) and isinstance(f.value, ast.Call) and txt(f.value.func) == 'super' and S == 'self' and \
+                        f.attr in (KEY_VIEWS | {'__eq__', '__ne__', '__iter__', '__reversed__', 'copy'}):
+                    bad.append((n, 'super().%s(...) sees one entry per key' % f.attr))
+            if isinstance(n, ast.Attribute) and isinstance(n.value, ast.Name) and n.value.id == S and n.attr == 'root':
+                good.append((n, 'ring'))
+        for n, why in bad:
+            ctx.ob(rule, fn.fq, '%s: the content of `%s` is read through the all-pairs view' % (what, S), False,
+                   loc='%s:%d' % (fn.module.relpath, n.lineno), detail=why)
+        if not bad:
+            if good:
+                ctx.ob(rule, fn.fq, '%s: the content of `%s` is read through the all-pairs view' % (what, S), True,
+                       loc='%s:%d' % (fn.module.relpath, good[0][0].lineno))
+            else:
+                ctx.unknown(rule, fn.fq, '%s: no read of the content of `%s` recognised' % (what, S), fn.loc)
+
+
+def splice_shape(ctx, fn, prev='PREV', nxt='NEXT', rule='T28'):
+    """Doubly-linked unlink statements are well-formed: in `X[a][b] = X[c]` with {a, b} = {PREV, NEXT}, c is b
+    (the neighbour on side a gets X's b-neighbour as its b-link); anything else makes a cell point at itself."""
+    n_seen = 0
+    for n in ast.walk(fn.node):
+        pairs = []
+        if isinstance(n, ast.Assign):
+            for t in n.targets:
+                if isinstance(t, ast.Tuple) and isinstance(n.value, ast.Tuple) and len(t.elts) == len(n.value.elts):
+                    pairs += list(zip(t.elts, n.value.elts))
+                else:
+                    pairs.append((t, n.value))
+        for t, v in pairs:
+            if not (isinstance(t, ast.Subscript) and isinstance(t.value, ast.Subscript) and isinstance(v, ast.Subscript)):
+                continue
+            a, b, c = txt(t.value.slice), txt(t.slice), txt(v.slice)
+            X, Y = txt(t.value.value), txt(v.value)
+            if {a, b} == {prev, nxt} and X == Y and c in (prev, nxt):
+                n_seen += 1
+                ctx.ob(rule, fn.fq, 'unlink statement `%s = %s` is well-formed (the %s-neighbour\'s %s link becomes the cell\'s '
+                       '%s-neighbour)' % (txt(t), txt(v), a, b, b), c == b, loc='%s:%d' % (fn.module.relpath, n.lineno))
+    return n_seen
